@@ -309,7 +309,7 @@ func runC13(c *Ctx) {
 	// failures
 	nf := 3
 	if c.Thorough {
-		nf = 12
+		nf = 40
 	}
 	for i := 0; i < nf; i++ {
 		cr := revs[r.Intn(len(revs))]
